@@ -12,6 +12,7 @@
 -/
 import Lmd.Render
 import Lmd.Passthrough
+import Lmd.Locks
 import Driver.Ops
 import Driver.World
 
@@ -220,6 +221,20 @@ partial def loop (h : IO.FS.Stream) (out : IO.FS.Stream) (f : Full) : IO Unit :=
           out.flush
         | none => pure ()
         loop h out { st := st', ws := ws', clock := clock' }
+      else if op == "locks" then
+        let id := jNat j "id"
+        let base : List (String × Json) := [("id", .num ⟨(id : Int), 0⟩), ("op", .str "locks")]
+        let r := match parseRequest f.st.schema { optimize := true, q := Quirks.current } (jStr j "text") with
+          | .error (.bad msg) => Json.mkObj (base ++ [("bad", .str msg)])
+          | .error (.unsupported why) => Json.mkObj (base ++ [("unsupported", .str why)])
+          | .ok req =>
+            match f.st.schema.table? req.table with
+            | none => Json.mkObj (base ++ [("bad", .str "table")])
+            | some t => Json.mkObj (base ++ [("affected", .arr ((affectedTables f.st.schema t req).map Json.str).toArray),
+                ("reads", .arr ((tablesRead f.st.schema t req).eraseDups.map Json.str).toArray)])
+        out.putStrLn (Json.compress r)
+        out.flush
+        loop h out f
       else if op == "ping" then
         out.putStrLn (Json.compress (Json.mkObj [("pong", .num ⟨(jNat j "id" : Int), 0⟩)]))
         out.flush
